@@ -23,7 +23,7 @@ Definition owned_of (p : pc) : option Z :=
   | _ => None
   end.
 Definition qos_of (p : pc) : option Z :=
-  match p with PA_xchg q | PA_link _ _ q | PA_probe q | PA_wake q _ => Some q | _ => None end.
+  match p with PA_xchg q | PA_link _ _ q | PA_probe q | PA_wake q _ | PA_oprobe q | PA_owake q => Some q | _ => None end.
 
 Definition thread_inv (s : gst) (t : Z) : Prop :=
   (token_pc (pcs s t) = true <-> token s = Some (Some t)) /\
@@ -449,6 +449,89 @@ Proof.
       * apply (thread_other s _ t u N (T u)); sproj; [apply upd_other; exact N | tauto | rewrite in_remove_z; tauto].
 Qed.
 
+(* ---- the override continuation of a push onto a non-empty list ---- *)
+Lemma step_olink s t s' : Inv s -> ostep s t = Some s' -> Inv s'.
+Proof.
+  intros I B. unfold ostep in B. destruct (pcs s t) eqn:Hpc; try discriminate.
+  destruct was_empty; [discriminate|]. injection B as <-.
+  assert (I1 : Inv (set_lst s (link_id (lst s) i))).
+  { destruct I as [[r G] T]. split; [exists r; apply ginv_relink; exact G | intros u; apply thread_inv_relink; apply T]. }
+  destruct I as [_ T]. destruct (T t) as (_ & _ & _ & T4). rewrite Hpc in T4.
+  apply Inv_other_move; sproj; rewrite ?Hpc; try reflexivity; try exact I1.
+  intros q0 E. injection E as <-. apply (T4 qos eq_refl).
+Qed.
+
+Lemma step_oprobe s t q s' : Inv s -> pcs s t = PA_oprobe q -> gstep s t = Some s' -> Inv s'.
+Proof.
+  intros I Hpc B. unfold gstep in B. rewrite Hpc in B. injection B as <-.
+  pose proof I as I0. destruct I0 as [_ T]. destruct (T t) as (_ & _ & _ & T4). rewrite Hpc in T4.
+  destruct (lst s); apply Inv_other_move; rewrite ?Hpc; try reflexivity; try exact I.
+  - intros q0 E. discriminate.
+  - intros q0 E. injection E as <-. apply (T4 q eq_refl).
+Qed.
+
+Lemma step_owake s t q s' : Inv s -> valid_tid t -> pcs s t = PA_owake q -> gstep s t = Some s' -> Inv s'.
+Proof.
+  intros I Vt Hpc B. pose proof I as I0. destruct I0 as [[r G] T]. unfold gstep in B. rewrite Hpc in B.
+  pose proof (not_holder s t (T t)) as K. rewrite Hpc in K. specialize (K eq_refl).
+  destruct (T t) as (T1 & T2 & T3 & T4). rewrite Hpc in T1, T2, T3, T4. pose proof (T4 q eq_refl) as Q.
+  destruct G. pose proof g_wf0 as W. unfold wfr in W.
+  rewrite g_enc0 in B. unfold ENQUEUED in B.
+  rewrite (wakeup_fields_plain r q 1 1 g_wf0 Q eq_refl) in B. cbv zeta in B.
+  pose proof (merged_wf r q g_wf0 Q) as Wm. unfold wfr in Wm.
+  destruct (merged_same r q) as (M1 & M2 & M3 & M4 & M5 & M6 & M7 & M8 & M9 & M10).
+  set (m := merged r q) in *.
+  set (e' := if can_enqueue r then 1 else f_enq m) in *.
+  assert (He' : 0 <= e' < 2) by (subst e'; destruct (can_enqueue r); lia).
+  set (r' := mk (f_owner m) (f_tr m) e' (f_mq m) (f_ov m) (f_role m) (f_em m) (f_d m) (f_pb m) (f_wq m) (f_ib m) (f_hi m)) in *.
+  assert (W' : wfr r') by (subst r'; apply wfr_mk; lia).
+  destruct (enc r' =? enc r).
+  { (* nothing to change: give up *)
+    injection B as <-. apply Inv_other_move; rewrite ?Hpc; try reflexivity; try exact I. intros q0 E. discriminate. }
+  cbv iota beta in B. rewrite (enq_changed r r' g_wf0 W') in B.
+  assert (Fr : f_owner r' = f_owner r /\ f_ib r' = f_ib r /\ f_wq r' = f_wq r /\ f_enq r' = e' /\ f_d r' = f_d r /\
+               f_tr r' = 0 /\ f_em r' = 0 /\ f_pb r' = 0 /\ f_hi r' = 0 /\ f_role r' = f_role r).
+  { subst r'. unfold mk; cbn. repeat split; congruence. }
+  destruct Fr as (F1 & F2 & F3 & F4 & F5 & F6 & F7 & F8 & F9 & F10).
+  assert (P : forall p w, token s = Some (Some w) -> upd (pcs s) t p w = pcs s w).
+  { intros p w E. apply upd_other. congruence. }
+  assert (Lk : forall x, (match x with Some (Some w) => valid_tid w /\ (if locked_pc (pcs s w) then held r w else free r) | _ => free r end) ->
+                         (match x with Some (Some w) => valid_tid w /\ (if locked_pc (pcs s w) then held r' w else free r') | _ => free r' end)).
+  { intros x. unfold held, free. rewrite F1, F2, F3. auto. }
+  destruct (can_enqueue r) eqn:CE.
+  - unfold can_enqueue in CE. rewrite !andb_true_iff in CE. destruct CE as [[[C1 C2] C3] C4]. apply Z.eqb_eq in C2.
+    assert (Tk : token s = None).
+    { destruct (token s) eqn:E; [|reflexivity]. assert (f_enq r = 1) by (apply g_enq0; congruence). lia. }
+    assert (Ee : (f_enq r =? f_enq r') = false) by (rewrite F4; subst e'; rewrite C2; reflexivity).
+    rewrite Ee in B. cbn [negb] in B. injection B as <-. rewrite Tk in *. split.
+    + exists r'. constructor; sproj; try assumption; try lia.
+      * rewrite F4. subst e'. split; [discriminate | reflexivity].
+      * rewrite upd_same. cbn [locked_pc]. split; [exact Vt | unfold free in *; rewrite F1, F2, F3; exact g_lock0].
+      * intros _. left. discriminate.
+      * intros w E. injection E as <-. rewrite upd_same. discriminate.
+      * unfold inflight in *; sproj. rewrite Tk in g_order0. rewrite upd_same. exact g_order0.
+      * rewrite upd_same. exact g_running0.
+    + intros u. destruct (Z.eq_dec u t) as [->|N].
+      * unfold thread_inv. sproj. rewrite upd_same. cbn [token_pc locked_pc waker_pc owned_of qos_of orb].
+        repeat split; try discriminate; auto.
+        intros Hin. apply T2 in Hin. discriminate.
+      * apply (thread_other s _ t u N (T u)); sproj; [apply upd_other; exact N | | tauto].
+        rewrite Tk. split; intros E; [injection E as E; congruence | discriminate].
+  - assert (Ee : (f_enq r =? f_enq r') = true) by (rewrite F4; subst e'; rewrite M3; apply Z.eqb_refl).
+    rewrite Ee in B. cbn [negb] in B. injection B as <-. split.
+    + exists r'. constructor; sproj; try assumption; try lia.
+      * rewrite F4. subst e'. rewrite M3. exact g_enq0.
+      * specialize (Lk (token s) g_lock0). destruct (token s) as [[w|]|]; auto. rewrite P by reflexivity. exact Lk.
+      * intros w E. rewrite P by exact E. rewrite F5. apply (g_dirty0 w E).
+      * unfold inflight in *; sproj. destruct (token s) as [[w|]|]; auto. rewrite P by reflexivity. exact g_order0.
+      * destruct (token s) as [[w|]|]; auto. rewrite P by reflexivity. exact g_running0.
+    + intros u. destruct (Z.eq_dec u t) as [->|N].
+      * unfold thread_inv. sproj. rewrite upd_same. cbn [token_pc locked_pc waker_pc owned_of qos_of orb].
+        repeat split; try discriminate; auto.
+        intros Hin. apply T2 in Hin. discriminate.
+      * apply (thread_other s _ t u N (T u)); sproj; [apply upd_other; exact N | tauto | tauto].
+Qed.
+
 Lemma step_rootpush s t s' : Inv s -> pcs s t = PA_rootpush -> gstep s t = Some s' -> Inv s'.
 Proof.
   intros [[r G] T] Hpc B. unfold gstep in B. rewrite Hpc in B. injection B as <-.
@@ -673,7 +756,7 @@ Qed.
 
 Theorem step_preserves s a s' : Inv s -> step s a s' -> Inv s'.
 Proof.
-  intros I H. destruct a as [t c|t]; destruct H as [V B].
+  intros I H. destruct a as [t c|t|t]; destruct H as [V B].
   - exact (begin_preserves s t c s' I V B).
   - destruct (pcs s t) eqn:Hpc.
     + unfold gstep in B. rewrite Hpc in B. discriminate.
@@ -682,6 +765,8 @@ Proof.
     + eapply step_probe; eauto.
     + eapply step_wake; eauto.
     + eapply step_rootpush; eauto.
+    + eapply step_oprobe; eauto.
+    + eapply step_owake; eauto.
     + eapply step_lock; eauto.
     + eapply step_tail; eauto.
     + eapply step_head; eauto.
@@ -691,6 +776,7 @@ Proof.
     + eapply step_next; eauto.
     + eapply step_unlock; eauto.
     + eapply step_xor; eauto.
+  - exact (step_olink s t s' I B).
 Qed.
 
 Theorem Inv_reachable rb s : 0 <= rb < 2 -> reach rb s -> Inv s.
